@@ -11,6 +11,9 @@ streams (one driver request = one whole layering; every directive is one word, f
   hist: histories on ONE mutable ConfigManager (live table and random tables): read(file), updateFromDict(parse_args(argv)) and
         assignments config[s][k] = v in any order, with a read-back of every option (item and get) in between; the expected value at
         every read-back is the spec's denotation of the steps so far, references resolved against the values of that moment.
+  main: raw command-line words through the real client.main in a directory holding the named files: -c/--config options in any
+        position and order (a file twice, a missing file), the document anywhere, option strings with their words; ~12% malformed
+        (no/two documents, the document swallowed by nargs='*', -c without a word).  The model reads the words itself (splitArgv).
   one : systematic sweep option x source (file1, file2, cli, file+cli) x value class over the live table (one option touched).
 """
 import os, io, sys, json, zlib, tempfile, shutil, contextlib, logging
@@ -37,7 +40,9 @@ LEVEL_TEXT = ('Lean 4 theorems over a line-by-line model of ConfigManager.read /
               'interp_no_percent, readBack_format, readBack_meets_oracle, spec_parser_sound, lookup_resolution (name resolution incl. the '
               'swallowed-KeyError quirk), updateFromDict_reads_own_occurrences (the argparse namespace is keyed by option.name: on tables with pairwise '
               'distinct dests and option strings every option reads back exactly its own occurrences; shared_dest_counterexample otherwise; '
-              'table_dests_distinct re-checked on the live table), get_is_getitem / get_default_on_keyerror (section.get), history_no_stale_readback / history_readback_current / '
+              'table_dests_distinct re-checked on the live table), get_is_getitem / get_default_on_keyerror (section.get), history_defined_on_domain / history_exact_on_domain (a history inside the '
+              'domain raises nothing), parse_args_recovers_pieces / main_is_layering / main_meets_den / main_needs_one_document (client.main on raw '
+              'words: config files are read in the order of their -c/--config options, wherever they stand, then the command line), history_no_stale_readback / history_readback_current / '
               'history_observation_count (layers and assignments in any order with read-backs in between: every observed state is the '
               'denotation of the steps before it, so a read-back always uses the current values), interp_terminates_acyclic (no RecursionError when references are ranked), and the type-appropriate-value '
               'round trips int_written_is_read, float_written_is_read, words_written_are_read, dict_entry_written_is_read, file_sets_int, '
@@ -285,6 +290,44 @@ def parse_hist(line):
         elif p[0] == 'obs': steps.append(('obs',))
         else: raise ValueError(w)
     return tab or None, steps
+
+
+def main_line(tab, fm, words, intent):
+    """fm: [(name, file)] the files that exist; words: what client.main gets; intent: None or the pieces as written: ('cfg', '-c'|'--config', name) | ('pos', word) | ('occ', flag, args)"""
+    ws = []
+    for sec, key, ty, d, fl, nfl, dest in (tab or []):
+        ws.append('/'.join(['opt', enc_s(sec), enc_s(key), ty, enc_val(d), ','.join(map(enc_s, fl)), ','.join(map(enc_s, nfl)), enc_s(dest)]))
+    for name, f in fm:
+        ws.append('cf/' + enc_s(name))
+        for sec, items in f:
+            ws.append('sec/' + enc_s(sec))
+            for k, v in items:
+                ws.append('kv/%s/%s' % (enc_s(k), enc_s(v)))
+    for w in words:
+        ws.append('w/' + enc_s(w))
+    if intent is not None:
+        ws.append('intent')
+        for pc in intent:
+            if pc[0] == 'cfg': ws.append('pc/%d/%s' % (1 if pc[1] == '--config' else 0, enc_s(pc[2])))
+            elif pc[0] == 'pos': ws.append('pp/' + enc_s(pc[1]))
+            else: ws.append('/'.join(['po', enc_s(pc[1])] + [enc_s(a) for a in pc[2]]))
+    return ' '.join(ws)
+
+
+def parse_main(line):
+    tab, fm, words = [], [], []
+    for w in line.split():
+        p = w.split('/')
+        if p[0] == 'opt':
+            tab.append((dec_s(p[1]), dec_s(p[2]), p[3], dec_val(p[4]), [dec_s(x) for x in p[5].split(',') if x],
+                        [dec_s(x) for x in p[6].split(',') if x], dec_s(p[7])))
+        elif p[0] == 'cf': fm.append((dec_s(p[1]), []))
+        elif p[0] == 'sec': fm[-1][1].append((dec_s(p[1]), []))
+        elif p[0] == 'kv': fm[-1][1][-1][1].append((dec_s(p[1]), dec_s(p[2])))
+        elif p[0] == 'w': words.append(dec_s(p[1]))
+        elif p[0] in ('intent', 'pc', 'pp', 'po'): pass
+        else: raise ValueError(w)
+    return tab or None, fm, words
 
 
 def dec_atom(w):
@@ -640,6 +683,60 @@ def gen_history(rng, tab):
     return steps
 
 
+def gen_main(rng, tab):
+    """a whole command line for client.main: -c/--config options (any position, any order, a file twice, a missing file),
+    the positional document and the option strings with their words"""
+    files, argv = gen_layering(rng, tab, False)
+    fm = [('f%d.ini' % n, f) for n, f in enumerate(files)]
+    order = [n for n, _ in fm]
+    rng.shuffle(order)
+    if order and rng.random() < 0.2: order.insert(rng.randint(0, len(order)), rng.choice(order))
+    if rng.random() < 0.2: order.insert(rng.randint(0, len(order)), 'missing.ini')
+    tyof = {}
+    for r in tab:
+        for f in r[4] + r[5]:
+            tyof.setdefault(f, r[2])
+    cfg_pieces = [([rng.choice(['-c', '--config']), n], 'cfg') for n in order]
+    occ_pieces = [([flag] + list(args), tyof.get(flag, '?')) for flag, args in argv]
+    pieces = []
+    ci = oi = 0
+    while ci < len(cfg_pieces) or oi < len(occ_pieces):
+        if oi >= len(occ_pieces) or (ci < len(cfg_pieces) and rng.random() < 0.5):
+            pieces.append(cfg_pieces[ci]); ci += 1
+        else:
+            pieces.append(occ_pieces[oi]); oi += 1
+    ok = True
+    for flag, args in argv:
+        if any(a.startswith('-') and not (len(a) > 1 and (a[1].isdigit() or a[1] == '.')) for a in args):
+            ok = False      # a value that argparse reads as an option string
+    swallow = lambda k: k > 0 and pieces[k - 1][1] in ('list', 'Lstr', '?')
+    slots = [k for k in range(len(pieces) + 1) if not swallow(k)]
+    r = rng.random()
+    if r < 0.88 and slots:
+        k = rng.choice(slots)
+        layout = pieces[:k] + [(['doc.tex'], 'pos')] + pieces[k:]
+    elif r < 0.92:
+        layout, ok = list(pieces), False                                    # no document
+    elif r < 0.96:
+        layout, ok = [(['doc.tex'], 'pos')] + pieces + [(['more.tex'], 'pos')], False
+    else:
+        bad = [k for k in range(len(pieces) + 1) if swallow(k)]
+        k = rng.choice(bad) if bad else 0
+        layout = pieces[:k] + [(['doc.tex'], 'pos')] + pieces[k:]
+        ok = ok and not bad
+    words = [w for p, _ in layout for w in p]
+    if rng.random() < 0.03:
+        words.append(rng.choice(['-c', '--config'])); ok = False            # option without its word
+    if not ok:
+        return fm, words, None
+    intent = []
+    for p, kind in layout:
+        if kind == 'cfg': intent.append(('cfg', p[0], p[1]))
+        elif kind == 'pos': intent.append(('pos', p[0]))
+        else: intent.append(('occ', p[0], p[1:]))
+    return fm, words, intent
+
+
 def generate(ctx):
     rng = ctx.rng
     tab = table()
@@ -649,13 +746,20 @@ def generate(ctx):
     for _ in range(n):
         files, argv = gen_layering(rng, tab, False)
         yield Case('cfg', line_of(None, files, argv))
-    for _ in range(n * 2):
+    for _ in range(n * 7 // 5):
         t = gen_table(rng)
         files, argv = gen_layering(rng, t, True)
         yield Case('tab', line_of(t, files, argv))
     for _ in range(n // 3):
+        fm, words, intent = gen_main(rng, tab)
+        yield Case('main', main_line(None, fm, words, intent))
+    for _ in range(n // 2):
+        t = gen_table(rng)
+        fm, words, intent = gen_main(rng, t)
+        yield Case('main', main_line(t, fm, words, intent))
+    for _ in range(n // 3):
         yield Case('hist', hist_line(None, gen_history(rng, tab)))
-    for _ in range(n):
+    for _ in range(n * 7 // 10):
         t = gen_table(rng)
         yield Case('hist', hist_line(t, gen_history(rng, t)))
 
@@ -697,6 +801,11 @@ def corpus():
         Case('hist', hist_line(None, [('read', [('general', [('theme', '%(renderer)s-theme')]), ('files', [('directory', 'out-%(split-level)s-100%%')])]), ('obs',),
                                       ('cli', [('--renderer', ['XHTML']), ('--split-level', ['4'])]), ('obs',),
                                       ('set', 'general', 'renderer', 'Text'), ('obs',)]), None, 'corpus'),
+        # the order of -c/--config options on the command line is the reading order (not the order of the names)
+        Case('main', main_line(None, [('f0.ini', [('general', [('xml', 'yes'), ('plugins', 'a')])]), ('f1.ini', [('general', [('xml', 'no'), ('plugins', 'b')])])],
+                               ['--config', 'f1.ini', 'doc.tex', '--plugins', 'c', '-c', 'missing.ini', '-c', 'f0.ini', '-c', 'f1.ini'],
+                               [('cfg', '--config', 'f1.ini'), ('pos', 'doc.tex'), ('occ', '--plugins', ['c']), ('cfg', '-c', 'missing.ini'),
+                                ('cfg', '-c', 'f0.ini'), ('cfg', '-c', 'f1.ini')]), None, 'corpus'),
         Case('cfg', L([], [('--split-level', ['x'])]), None, 'corpus'),
         Case('cfg', L([[('files', [('split-level', 'x')])]], []), None, 'corpus'),
         Case('cfg', L([], [('--link', ['a'])]), None, 'corpus'),
@@ -867,7 +976,51 @@ def run_history(tab, steps, seed=0):
     return ';;'.join(out)
 
 
+def run_words(tab, fm, words):
+    """the real client.main on raw words, in a directory that holds exactly the files of `fm`"""
+    from plasTeX import client
+    got = {}
+    saved = (client.run, client.defaultConfig, getattr(client, 'collect_renderer_config', None))
+    d = tempfile.mkdtemp(prefix='c16-')
+    cwd = os.getcwd()
+    try:
+        client.run = lambda filename, config: got.update(config=config, filename=filename)
+        if tab is not None:
+            client.defaultConfig = lambda *a, **k: build_config(tab)
+            client.collect_renderer_config = lambda config: None
+        tmp = os.path.join(d, 'tmp'); os.mkdir(tmp)
+        work = os.path.join(d, 'work'); os.mkdir(work)
+        for n, (name, f) in enumerate(fm):
+            p = write_files([f], tmp, zlib.crc32(name.encode()) + n)[0]
+            os.rename(p, os.path.join(work, name))
+        os.chdir(work)
+        buf = io.StringIO()
+        with contextlib.redirect_stdout(buf), contextlib.redirect_stderr(buf):
+            client.main(list(words))
+        return got['config']
+    finally:
+        os.chdir(cwd)
+        client.run, client.defaultConfig = saved[0], saved[1]
+        if saved[2] is not None:
+            client.collect_renderer_config = saved[2]
+        shutil.rmtree(d, ignore_errors=True)
+
+
 def impl(case, aux):
+    if case.stream == 'main':
+        tab, fm, words = parse_main(case.line)
+        try:
+            config = run_words(tab, fm, words)
+        except BaseException as e:
+            if isinstance(e, KeyboardInterrupt) or type(e).__name__ == 'CaseTimeout':
+                raise
+            return 'err:' + canon_exc(e)
+        try:
+            return observe(config)
+        except BaseException as e:
+            if isinstance(e, KeyboardInterrupt) or type(e).__name__ == 'CaseTimeout':
+                raise
+            return 'raised-' + type(e).__name__
     if case.stream == 'hist':
         tab, steps = parse_hist(case.line)
         return run_history(tab, steps, zlib.crc32(case.line.encode()))
@@ -908,7 +1061,9 @@ def judge(o):
 
 def first_diff(impl_s, spec_s, line):
     try:
-        tab = [r for r in (parse_hist(line)[0] or [])] if (' obs' in ' ' + line) else parse_line(line)[0]
+        if ' w/' in ' ' + line or ' cf/' in ' ' + line: tab = parse_main(line)[0]
+        elif ' obs' in ' ' + line: tab = parse_hist(line)[0]
+        else: tab = parse_line(line)[0]
         rows = tab or table()
         if not impl_s.startswith('ok:'):
             return 'implementation raised %s; expected values for every option' % impl_s
@@ -956,9 +1111,53 @@ def _cleanup(words):
     return words
 
 
+def parse_intent(line):
+    ps = []
+    for w in line.split():
+        p = w.split('/')
+        if p[0] == 'pc': ps.append(('cfg', '--config' if p[1] == '1' else '-c', dec_s(p[2])))
+        elif p[0] == 'pp': ps.append(('pos', dec_s(p[1])))
+        elif p[0] == 'po': ps.append(('occ', dec_s(p[1]), [dec_s(x) for x in p[2:]]))
+    return ps if ' intent' in ' ' + line else None
+
+
+def shrink_main(ctx, o, evaluate):
+    """drop whole pieces of the command line (the words are re-rendered from the pieces) and file lines"""
+    best = o
+    for _ in range(200):
+        tab, fm, words = parse_main(best.case.line)
+        ps = parse_intent(best.case.line)
+        if ps is None:
+            return best
+        cands = []
+        for k, pc in enumerate(ps):
+            if pc[0] != 'pos':
+                cands.append((fm, ps[:k] + ps[k + 1:]))
+        for a, (name, f) in enumerate(fm):
+            for b, (sec, items) in enumerate(f):
+                for c in range(len(items)):
+                    f2 = f[:b] + [(sec, items[:c] + items[c + 1:])] + f[b + 1:]
+                    cands.append((fm[:a] + [(name, [x for x in f2 if x[1]])] + fm[a + 1:], ps))
+        found = None
+        for fm2, ps2 in cands:
+            ws = []
+            for pc in ps2:
+                ws += [pc[1], pc[2]] if pc[0] == 'cfg' else ([pc[1]] if pc[0] == 'pos' else [pc[1]] + list(pc[2]))
+            r = evaluate([Case('main', main_line(tab, fm2, ws, ps2), None, 'shrink')])[0]
+            if not r.prop_ok:
+                found = r
+                break
+        if found is None:
+            return best
+        best = found
+    return best
+
+
 def shrink(ctx, o, evaluate):
     """delta debugging over the removable directives (file lines, occurrences, assignments, read-backs but the last):
     halves first, then smaller chunks, while the property still fails"""
+    if o.case.stream == 'main':
+        return shrink_main(ctx, o, evaluate)
     best = o
     stream = o.case.stream
 
@@ -1009,6 +1208,10 @@ def search(ctx, evaluate, corr_bad):
     for _ in range(3000):
         t = gen_table(rng) if rng.random() < 0.7 else None
         cases.append(Case('hist', hist_line(t, gen_history(rng, t or tab)), None, 'search'))
+    for _ in range(2000):
+        t = gen_table(rng) if rng.random() < 0.6 else None
+        fm, words, intent = gen_main(rng, t or tab)
+        cases.append(Case('main', main_line(t, fm, words, intent), None, 'search'))
     bad = [o for o in evaluate(cases) if not o.prop_ok]
     if bad:
         o = shrink(ctx, bad[0], evaluate)
